@@ -7,6 +7,7 @@ about the mass properties the library reports.  Over any field of characteristic
 -/
 import TrimeshVerif.Proofs.Affine
 import TrimeshVerif.Proofs.GeomRat
+import TrimeshVerif.Generated.C04PathTable
 import Mathlib.Algebra.Order.Field.Basic
 import Mathlib.Algebra.Order.AbsoluteValue.Basic
 import Mathlib.Tactic.Linarith
@@ -180,6 +181,23 @@ theorem C04_rat_first_moment (L : M3R) (a b c : TV.GeomRat.V) :
   rat_first_moment L a b c
 end rat
 
+
+
+/-! ### (G) what `Path.apply_transform` keeps in the cache -/
+
+/-- derived values of a path that depend only on which entities join at which vertices and on which closed curve
+    contains which (`C14_enclosure`): unchanged by every invertible affine map -/
+def pathTopological : List String :=
+  ["root", "paths", "path_valid", "dangling", "vertex_graph", "enclosure", "enclosure_shell", "enclosure_directed"]
+
+/-- (G) **`Path.apply_transform` in the current source keeps only topological values**: every cache key it copies
+    across the transform is in the list above, the only value it carries over otherwise is `discrete`, mapped through
+    the matrix point by point, and it verifies the cache before reading it, assigns the vertices, clears, re-stamps
+    the cache id and only then puts the kept values back (the protocol of `C01_read_fresh`) -/
+theorem C04_path_transform_keeps_topology_only :
+    TV.Generated.C04.pathKept.all (fun k => pathTopological.contains k) = true ∧
+    TV.Generated.C04.pathTransported = ["discrete"] ∧
+    TV.Generated.C04.pathEvents = ["verify", "assign_vertices", "clear", "id_set", "update"] := by decide
 
 /-! ### the identity shortcuts (`transform_points`, `apply_transform`: a matrix within 1e-8 of the identity is skipped) -/
 
